@@ -47,6 +47,8 @@ func init() {
 		c12U(c, unhx(in[0]), k, in[2] == "1")
 	}
 	r8Wrap("C06", r8C06)
+	r8Wrap("C15", r8C15)
+	r8Wrap("C09", r8C15)
 	r8Wrap("C09", r8H09B)
 	r8Wrap("C11", r8H09B)
 	replayers["H09B"] = func(c *ctx, in []string) {
@@ -750,5 +752,23 @@ func r8C12U(c *ctx) {
 	msg := append([]byte(nil), b.Bytes()...)
 	for k := 0; k < len(msg); k++ {
 		c12U(c, msg, k, k%2 == 0)
+	}
+}
+
+// r8-C15: Sec-WebSocket-Key values of 24 characters that are NOT the base64 form of 16 bytes (no padding, one '=', padding
+// overwritten, characters outside the alphabet, 24 bytes above 127): a value or an error, never a panic - both upgraders
+func r8C15(c *ctx) {
+	keys := []string{
+		strings.Repeat("A", 24), strings.Repeat("A", 23) + "=", "dGhlIHNhbXBsZSBub25jZQAA", "dGhlIHNhbXBsZSBub25jZQ=A", "dGhlIHNhbXBsZSBub25jZQA=",
+		strings.Repeat("/", 24), strings.Repeat("+", 22) + "==", strings.Repeat("=", 24), strings.Repeat("-", 24), strings.Repeat("_", 22) + "==",
+		strings.Repeat("\xff", 24), strings.Repeat(" ", 24), "dGhlIHNhbXBsZSBub25jZQ==", strings.Repeat("A", 25), strings.Repeat("A", 22), "",
+		"AAAAAAAAAAAAAAAAAAAAAAAAAAAAAAAA", strings.Repeat("A", 21) + "=A=", "====" + strings.Repeat("A", 20),
+	}
+	for _, k := range keys {
+		req := "GET /ws HTTP/1.1\r\nHost: example.com\r\nUpgrade: websocket\r\nConnection: Upgrade\r\nSec-WebSocket-Version: 13\r\nSec-WebSocket-Key: " + k + "\r\n\r\n"
+		fz(c, "up", []byte(req))
+		fz(c, "upn", []byte(req))
+		hdr := []hmEntry{{"Upgrade", []string{"websocket"}}, {"Connection", []string{"Upgrade"}}, {"Sec-Websocket-Version", []string{"13"}}, {"Sec-Websocket-Key", []string{k}}}
+		h09(c, "up", "GET", 1, 1, "example.com", hdr, nil, nil, nil, nil)
 	}
 }
